@@ -190,7 +190,7 @@ class HexBinary(AbstractBinary):
         elif not isinstance(value, str):
             raise cls._invalid_type(value)
 
-        value = value.strip()
+        value = value.strip(' \t\n\r')
         if cls.pattern.match(value) is None:
             raise cls._invalid_value(value)
 
